@@ -122,7 +122,8 @@ class World:
             vars_ = {}
             # storage per variable: "i2" = all packed; "i2-bare" = packed, add_offset attribute left out where it is 0 (scale_factor only);
             # "u-packed" / "v-packed" = only that velocity component (and the scalars) packed, the other one stored as float
-            per = {name: ("i2" if storage in ("i2", "i2-bare") else storage) for name in ["u", "v", *extras]}
+            # "f4-scaled" = single-precision floats that carry a scale_factor all the same (values stored in other units, e.g. cm/s)
+            per = {name: ("i2" if storage in ("i2", "i2-bare") else "f4s" if storage == "f4-scaled" else storage) for name in ["u", "v", *extras]}
             if storage in ("u-packed", "v-packed"):
                 per = {name: "i2" for name in per}
                 per["v" if storage == "u-packed" else "u"] = "f8"
@@ -133,6 +134,12 @@ class World:
                     sf, off = (scale or {}).get(name, (2.0 ** -10, 0.0))
                     vv.scale_factor = np.float32(sf)
                     if not (storage == "i2-bare" and off == 0.0):
+                        vv.add_offset = np.float32(off)
+                elif per[name] == "f4s":
+                    vv = nc.createVariable(name, "f4", d)
+                    sf, off = (scale or {}).get(name, (2.0 ** -10, 0.0))
+                    vv.scale_factor = np.float32(sf)
+                    if off:
                         vv.add_offset = np.float32(off)
                 else:
                     vv = nc.createVariable(name, per[name], d)
@@ -148,6 +155,9 @@ class World:
                         if not np.allclose(q, np.round(q)):
                             raise ValueError(f"field {name} not representable in packed storage")
                         vars_[name][k] = np.round(q).astype("i2")
+                    elif per[name] == "f4s":
+                        sf, off = (scale or {}).get(name, (2.0 ** -10, 0.0))
+                        vars_[name][k] = (a - off) / sf  # exact for the dyadic data of the lattices; NaN stays NaN
                     else:
                         vars_[name][k] = a
         return path
